@@ -10,15 +10,19 @@ import (
 func init() {
 	register(&Property{
 		ID:    "C04",
-		Rules: []string{"C04-R1", "C04-R2", "C04-R3", "C04-R4", "C04-R5"},
+		Rules: []string{"C04-R1", "C04-R2", "C04-R3", "C04-R4", "C04-R5", "C16-R10", "C01-R7", "C06-R2", "C13-R2", "C13-R4"},
 		Explain: "Decides the control structure of the tokenizer: C04-R1 the scan loop of ParseStreamCallback is evaluated as an observer over first(line) x blank x record-open x note x no-separator x conversion-error and must perform exactly the events of the documented line classification table (skip; flush once then open; note; bad syntax; conversion error; entry), keep the open record across every non-heading line and return from inside the loop only when a callback asks to stop; " +
 			"C04-R2 at end of input an open record is delivered exactly once and its callback error returned; " +
 			"C04-R3 the constant trim sets and the entry splitter agree with docs/syntax.ebnf (separator, quote, both indentation characters in every set, the dash in the name sets only, nothing that belongs to a name or number, splitter = exactly space and tab); " +
 			"C04-R4 the parser configuration (comment character) set by the defaults is not wiped when a configuration file is read: the file is read into the live options or a complete copy of them; " +
-			"C04-R5 every command hands the parser configuration of the loaded options on: each command configuration literal that has a parser.Config field sets it.",
+			"C04-R5 every command hands the parser configuration of the loaded options on: each command configuration literal that has a parser.Config field sets it. C16-R10 (shared) what gcfg parses is the whole configuration file. Shared: C01-R7 the book loader stores every record, C06-R2 every selected record reaches the reporter, C13-R2/R4 the raw-book export formats the entry's own amount.",
 		NotDecided:  "that names and values come out right for all inputs (splitting at the last blank, trimming, ParseFloat rounding, UTF-8), CRLF handling (bufio.ScanLines), quoted names",
 		Assumptions: []string{"bufio.Scanner: Scan() false then Err() nil-or-not; Text() returns the raw line"},
 		Run: func(c *core.Ctx) {
+			ruleCSVRows(c, "C13-R2", "C13-R4") // the value of an entry as the raw-book export shows it
+			ruleC06R2(c)
+			ruleBookLoaderKeepsAll(c, "C01-R7")
+			ruleConfigWholeFile(c, "C16-R10")
 			analyseParserLoop(c, map[string]bool{"C04-R1": true, "C04-R2": true, "C04-R3": true})
 			ruleConfigTarget(c, "C04-R4")
 			ruleConfigLiterals(c, "C04-R5", func(t types.Type) bool { return strings.HasSuffix(t.String(), "parser.Config") })
